@@ -429,6 +429,14 @@ func runC06(c *Ctx) *Replay {
 		// alone, before the elements arrive, shows against the few bytes of a short prefix
 		cfg.Giant = 2
 	}
+	if c.Run%12 == 5 {
+		// a fixed share of the runs goes to the chains of structs that hold nothing but
+		// structs (declared bottom-up, top-down and mixed): arrays of them are where a count
+		// guard depends on an analysis of the whole file
+		c.onlyProgram = "wrappers"
+		defer func() { c.onlyProgram = "" }()
+		c.Count("runs_on_wrapper_chains", 1)
+	}
 	var pk *pick
 	for try := 0; try < 20; try++ {
 		pk = c.pickRecord(cfg)
